@@ -23,7 +23,7 @@ ExpiryChanged(e) ==
         /\ e.pre.grants[g][x][t] \notin {"none", "expired"} /\ e.post.grants[g][x][t] \notin {"none", "expired"}
         /\ e.pre.grantExp[g][x][t] # e.post.grantExp[g][x][t]}
 
-FieldOrder == <<"wd", "deleg", "ubd", "grants", "rewards", "commission", "supply", "bank", "mods", "storage", "nonce", "code">>
+FieldOrder == <<"wd", "deleg", "ubd", "grants", "rewards", "commission", "supply", "bank", "mods", "storage", "nonce", "code", "logs">>
 \* all differing fields, in a fixed order, joined with "+"
 RECURSIVE JoinFrom(_, _)
 JoinFrom(i, diff) == IF i > Len(FieldOrder) THEN ""
@@ -65,7 +65,7 @@ Judge(e) ==
         \cup (IF ~rev /\ "grants" \in diff THEN {Sig("C04", "grant-accounting", cls, e)} ELSE {})
         \cup (IF ~HasApproveOp(e.top) /\ ExpiryChanged(e) # {} THEN {Sig("C04", "grant-expiration-changed-by-spend", cls, e)} ELSE {})
         \* anything else the precompile did differently from the native meaning
-        \cup (IF ~rev /\ diff \cap (CosmosFields \cup {"storage", "nonce", "code"}) # {} THEN {Sig("C16", "effect-differs-from-native", cls, e)} ELSE {})
+        \cup (IF ~rev /\ diff \cap (CosmosFields \cup {"storage", "nonce", "code", "logs"}) # {} THEN {Sig("C16", "effect-differs-from-native", cls, e)} ELSE {})
 
 TraceInit == l = 1 /\ viol = {} /\ div = {} /\ nok = 0
 
